@@ -35,7 +35,7 @@ ASSUMPTIONS = ['tasks are atomic (each writes its own window of the shared buffe
                'a single-row save loads back as a plain array (documented behaviour of ra.load)']
 REACH_EXPECTED = ['lazy_workers', 'eager_workers', 'worker_switch', 'multi_chunk_dispatch', 'frame_entries', 'per_file_args',
                   'lengths_hint', 'generator_input', 'read_fault_run', 'rows_cross_padding_10', 'rows_cross_padding_100',
-                  'strided_load', 'key_subset_load', 'rect_array_roundtrip', 'concatenate_trjs_run', 'striped_loader_run']
+                  'strided_load', 'key_subset_load', 'rect_array_roundtrip', 'concatenate_trjs_run', 'mixed_topologies', 'striped_loader_run']
 FORMATS = ('xtc', 'h5', 'nc')      # not trr: mdtraj's TRR reader corrupts the heap with atom_indices
 
 
@@ -191,8 +191,18 @@ def fam_concat_trjs(ctx):
     top = topology(n_atoms)
     n = t.irange(1, 10)
     rs = np.random.RandomState(t.draw(2 ** 31 - 1))
-    trjs = [md.Trajectory((rs.rand(t.irange(1, 8), n_atoms, 3) + i).astype('float32'), top) for i in range(n)]
     atoms = t.choice((None, 'name CA', 'name N or name C', 'name CA or name N or name C'))
+    tops = [top]
+    if atoms is not None and t.flag(1, 3):
+        # two different systems whose selections have the same number of atoms (other atom order, an extra atom type)
+        from .c10 import make_top
+        n_res = t.irange(1, 3)
+        tops = [make_top(n_res, False), make_top(n_res, True)]
+        ctx.hit('mixed_topologies')
+    trjs = []
+    for i in range(n):
+        tp = tops[t.draw(len(tops))]
+        trjs.append(md.Trajectory((rs.rand(t.irange(1, 8), tp.n_atoms, 3) + i).astype('float32'), tp))
     n_procs = None if t.flag(1, 3) else t.irange(1, 5)
     ctx.scenario.update(family='concatenate_trjs', trajectories=n, lengths=[len(x) for x in trjs], atoms=atoms, n_procs=n_procs)
     ctx.fp('ct', n, tuple(len(x) for x in trjs), n_atoms, atoms, n_procs)
